@@ -201,7 +201,8 @@ func appendedElems(v ssa.Value) (base ssa.Value, elems []ssa.Value, ok bool) {
 		if ia, ok := r.(*ssa.IndexAddr); ok {
 			for _, r2 := range referrers(ia) {
 				if st, ok := r2.(*ssa.Store); ok && st.Addr == ia {
-					elems = append(elems, st.Val)
+					// an element merged from several exits is the one value the facts at the append leave
+					elems = append(elems, refine(st.Val, factsAt(c)))
 				}
 			}
 		}
